@@ -593,17 +593,23 @@ class Model:
                 self.hidden[key] = cnt
             return cnt % a[1][1] == 0
         if f == "tally":
-            h = a[0]
-            v = self.val(h)
+            # each value is counted under <name>_<header>; two or more values are also counted, pipe-joined, under <name>
             base = q[0] if q and q[0] not in QUALS else "tally"
-            name = f"{base}_{h[1]}"
-            key = f"{v}"
-            if key.strip() == "":
-                return True
-            if v is None:
-                raise Unspec("tally of absent")
-            cur = self.getvar(name, key) or 0
-            self.setvar(name, cur + 1, key)
+            vals = []
+            for h in a:
+                v = self.val(h)
+                if v is None:
+                    raise Unspec("tally of absent")
+                vals.append(f"{v}")
+            for h, key in zip(a, vals):
+                if key.strip() == "":
+                    continue  # an empty value is not counted
+                name = f"{base}_{h[1]}"
+                self.setvar(name, (self.getvar(name, key) or 0) + 1, key)
+            if len(a) > 1:
+                key = "|".join(vals)
+                if key.strip() != "":
+                    self.setvar(base, (self.getvar(base, key) or 0) + 1, key)
             return True
         if f == "regex":
             return self.fnval(n) is not None
